@@ -91,6 +91,35 @@ func ambiguousS0x(x string) bool {
 	return false
 }
 
+// c01GateOnly judges an input for which LLVM gives no canonical form: the
+// parser must accept it and LLVM's assembler must accept the printed output.
+func c01GateOnly(r *fw.Rec, id, x string) {
+	m, perr, pmsg := parseGuard(id, x)
+	if pmsg != "" {
+		r.Violate(fw.Violation{Key: "parse-panic/" + id + "/" + panicSite(pmsg), Input: x, What: "asm.ParseString panics on a module LLVM accepts: " + firstLine(pmsg), Observed: pmsg})
+		return
+	}
+	if perr != nil {
+		if !reUnknownEnum.MatchString(perr.Error()) {
+			r.Violate(fw.Violation{Key: "translate-reject/" + id, Input: x, What: "a module LLVM accepts is rejected by the parser: " + firstLine(perr.Error())})
+		}
+		return
+	}
+	y, pp := printGuard(m)
+	if pp != "" {
+		r.Violate(fw.Violation{Key: "print-panic/" + id + "/" + panicSite(pp), Input: x, What: "String() panics on a module the parser produced from valid input: " + firstLine(pp), Observed: pp})
+		return
+	}
+	okY, msgY, err := llvmref.Accepts(y)
+	if err != nil {
+		return
+	}
+	r.Tally("inputs", "validity-gate-only(no canonical form)")
+	if !okY {
+		r.Violate(fw.Violation{Key: "output-invalid/" + id, Input: x, What: "LLVM rejects the printed output of a valid module: " + firstLine(lastDiag(msgY)), Observed: y})
+	}
+}
+
 func c01One(r *fw.Rec, id, variant, x string, unrep bool) {
 	r.Eval(1)
 	if ambiguousS0x(x) {
@@ -101,6 +130,12 @@ func c01One(r *fw.Rec, id, variant, x string, unrep bool) {
 	_ = variant
 	canonX, msg, ok, stripped, err := llvmref.Canon(x)
 	if err != nil {
+		// LLVM 14 cannot bring some valid inputs through bitcode (llvm-dis fails,
+		// e.g. an alloca in a non-default address space used by an addrspacecast):
+		// no canonical form, but the assembler alone still judges validity
+		if okX, _, e := llvmref.Accepts(x); e == nil && okX && !unrep {
+			c01GateOnly(r, id, x)
+		}
 		r.Inconclusive("llvm tool failure on the input: " + err.Error())
 		return
 	}
